@@ -10,7 +10,9 @@ from tools.vlib.core import natlist, natlit, qlist, qlit, zlit
 EPS = F(1, 2 ** 40)
 
 
-def gen(ctx, count):
+def gen(ctx, count, directed=False):
+    """directed: several batches PER DEVICE (small max_batch_size, >= 7 states) and mostly the fixed order - the
+    configuration in which a device-local batch position differs from the global one"""
     out = []
     tries = 0
     while len(out) < count and tries < count * 30:
@@ -23,7 +25,13 @@ def gen(ctx, count):
         g = rng.choice([F(1, 2), F(1, 4), F(1)])
         mb = rng.choice([1, 2, 3, 4, 5, nS, nS + 2])
         sweeps = 3
-        c = {"seed": sub, "spec": spec, "g": str(g), "mb": mb, "shuffle": rng.random() < 0.6, "random_seed": rng.randrange(100), "sweeps": sweeps}
+        shuffle = rng.random() < 0.6
+        if directed:
+            if nS < 7:
+                continue
+            mb = rng.choice([1, 1, 2])
+            shuffle = rng.random() < 0.3
+        c = {"seed": sub, "spec": spec, "g": str(g), "mb": mb, "shuffle": shuffle, "random_seed": rng.randrange(100), "sweeps": sweeps}
         # exactness guard on the fixed-order reference (permutation unknown before the run)
         ref = mdpgen.Ref(spec)
         V = runs.init_values(spec)
@@ -105,8 +113,12 @@ def run(ctx, build):
     inexact = 0
     n_shuffled = 0
     redraw_ok = 0
+    directed = gen(ctx, 10 if quick else 60, directed=True)
+    n_multibatch_per_device = 0
     for dv in devs:
-        sub = cs if dv == 1 else cs[: max(8, len(cs) // 4)]
+        sub = cs if dv == 1 else directed + cs[: max(6, len(cs) // 4)]
+        if dv > 1:
+            n_multibatch_per_device += sum(1 for c in sub if not c["shuffle"] and refsolve.layout(c["spec"]["nS"], c["mb"], dv)[1] >= 2)
         res = core.run_workers(ctx, [job_of(c) for c in sub], devices=dv)
         items, meta = [], []
         for c, r in zip(sub, res):
@@ -149,6 +161,7 @@ def run(ctx, build):
                for c in cs if refsolve.layout(c["spec"]["nS"], c["mb"], 1)[1] >= 2}
     cov = {
         "evaluations": total, "distinct_nontrivial": len(nontriv), "sweeps_compared": total * 3, "shuffled_cases": n_shuffled,
+        "fixed_order_multi_device_cases_with_several_batches_per_device": n_multibatch_per_device,
         "shuffled_cases_with_distinct_permutations_across_sweeps": redraw_ok, "hook_recorded_permutations": hook_on,
         "rule": "generated MDPs x max_batch_size x device count x fixed/shuffled order x random_seed, 3 sweeps each; every sweep compared with the model under BOTH scatter resolutions "
                 "and with an independent block Gauss-Seidel driven by the observed partition and permutation; non-trivial = at least two batches per device",
